@@ -26,6 +26,7 @@ def tables : List (String → List String → Option String) := []
   ++ [Drv.pureTable]
   ++ [Drv.Lib2.table]
   ++ [Drv.codecsGenV1Table]
+  ++ [Drv.beatgridGenTable]
 
 /-- Stateful groups, selected by a first line `#mode <name>`. -/
 def modes : List Mode := []
